@@ -55,6 +55,7 @@ type stackCase struct {
 	SlowMs     int        `json:"slow_ms"`
 	Late       []int      `json:"late"`    // nodes that call KeyGen LateMs after the others (the start-up barrier, spec/Barrier.tla)
 	LateMs     int        `json:"late_ms"`
+	Signers    []int      `json:"signers"` // orchestrated signing: the nodes that call Sign (default: all; must be threshold+1 of them)
 }
 
 type stackJob struct {
@@ -187,7 +188,7 @@ func stackExec(t int, c stackCase) []obj {
 	rng := rand.New(rand.NewSource(c.Seed))
 	r := &stackRun{c: c, t: t, links: map[[2]int][]netMsg{}, sentBy: map[int]int{}, parties: map[int]tss.MpcParty{}, inited: map[int]bool{}}
 	r.lines = append(r.lines, obj{"t": t, "e": "reset", "cfg": c.Cfg, "scheme": c.Scheme, "mode": c.Mode, "n": c.N, "th": c.T, "ids": c.IDs, "seed": c.Seed,
-		"policy": c.Policy, "fault": c.Fault, "byz": c.Byz != nil})
+		"policy": c.Policy, "fault": c.Fault, "byz": c.Byz != nil, "nsigners": len(c.Signers)})
 	if c.Byz != nil {
 		r.lines[0]["byznode"] = c.Byz.Node
 		r.lines[0]["strategy"] = c.Byz.Strategy
@@ -250,8 +251,18 @@ func stackExec(t int, c stackCase) []obj {
 			sf = func(party uint16) tss.Signer { return eddsa.NewParty(party, scripted.Logger{}) }
 		}
 		if c.Mode == "silent" {
+			// silent mode: the application tells who takes part; a signing session among a subset is announced as that subset
 			r.parties[id] = threshold.SilentScheme(uint16(id), countingLogger{r: r, node: id}, kgf, sf, c.T, send, mf,
-				func([]byte, int) []uint16 { return all16 })
+				func(_ []byte, expected int) []uint16 {
+					if len(c.Signers) > 0 && expected == len(c.Signers) && expected < len(all16) {
+						res := make([]uint16, len(c.Signers))
+						for i, x := range c.Signers {
+							res[i] = uint16(x)
+						}
+						return res
+					}
+					return all16
+				})
 		} else {
 			r.parties[id] = threshold.LoudScheme(uint16(id), countingLogger{r: r, node: id}, kgf, sf, c.T, send, mf)
 		}
@@ -433,26 +444,37 @@ func stackExec(t int, c stackCase) []obj {
 				sig  []byte
 				err  error
 			}
-			sres := make(chan sgres, len(ids))
+			signIDs := ids
+			if len(c.Signers) > 0 {
+				signIDs = c.Signers
+			}
+			sres := make(chan sgres, len(signIDs))
 			hard = time.Now().Add(deadline + 4*time.Second)
-			for _, id := range ids {
+			for _, id := range signIDs {
 				id := id
 				ctx, cancel := context.WithTimeout(context.Background(), deadline)
 				cancels = append(cancels, cancel)
+				late := false
+				for _, x := range c.Late {
+					late = late || x == id
+				}
 				go func() {
+					if late && c.LateMs > 0 {
+						time.Sleep(time.Duration(c.LateMs) * time.Millisecond)
+					}
 					sig, err := r.parties[id].Sign(ctx, digest, fmt.Sprintf("topic-%d", c.Seed))
 					sres <- sgres{id, sig, err}
 				}()
 			}
 			sgot := map[int]sgres{}
-			pump(func() bool { return len(sgot) == len(ids) }, func() {
+			pump(func() bool { return len(sgot) == len(signIDs) }, func() {
 				select {
 				case x := <-sres:
 					sgot[x.node] = x
 				default:
 				}
 			})
-			for _, id := range ids {
+			for _, id := range signIDs {
 				x, ok := sgot[id]
 				es := ""
 				verified := false
